@@ -13,7 +13,7 @@ VERIF = batch.VERIF
 
 class Profile:
     def __init__(self, prop, run_seed, replay_case, quick_runs, quick_budget, thorough_budget, rule, assumptions,
-                 evidence_extra=None, pre=None):
+                 evidence_extra=None, pre=None, step_slots=None):
         self.prop = prop
         self.run_seed = run_seed
         self.replay_case = replay_case
@@ -24,6 +24,7 @@ class Profile:
         self.assumptions = assumptions
         self.evidence_extra = evidence_extra
         self.pre = pre
+        self.step_slots = step_slots
 
 
 PROFILES: dict[str, Profile] = {}
@@ -100,6 +101,80 @@ PROFILES["C12"] = Profile(
 
 
 # ---------------------------------------------------------------------------------------------------------------------
+# C05
+
+
+def c05_pre(tier, args):
+    from . import model_diagram as MD
+
+    return MD.exhaustive_tables(tier)
+
+
+def c05_evidence_extra(agg: dict) -> dict:
+    st = agg["stats"]
+    fired = dict(st.get("faults_fired", {}))
+    fired["preempt"] = st.get("preemptions", 0)
+    return {
+        "steps_executed": st.get("steps", 0),
+        "logical_clock_line_events": st.get("lines", 0),
+        "simulated_time": "none - the system has no clock; logical time is the count of geometer LINE events",
+        "values_compared_with_model": st.get("values_compared", 0),
+        "predicted_TensorComputationErrors_confirmed": st.get("predicted_errors", 0),
+        "executed_steps_by_op": st.get("by_op", {}),
+        "faults_fired": fired,
+        "configurations": agg["configs"],
+        "distinct_switch_sites": len(st.get("switch_sites", {})),
+        "distinct_async_fault_sites": len(st.get("fault_sites", {})),
+        "runs_retired_because_an_operand_was_corrupted (C12 matter)": st.get("corrupted_runs", 0),
+        "real_vs_stub": {"real": ["geometer.base (TensorDiagram, Tensor, LeviCivitaTensor, KroneckerDelta)", "numpy",
+                                  "CPython threads"],
+                         "simulated": ["client scheduling", "logical clock", "fault delivery", "cache eviction"],
+                         "reference_model": "M5 (exact outer product + explicit traces, no einsum; inversion-parity "
+                                            "epsilon; determinant-of-elementary-deltas delta)",
+                         "stubbed": []},
+    }
+
+
+def _c05_run_seed(seed, want_sample=False):
+    from . import model_diagram as MD
+
+    return MD.run_c05_seed(seed, want_sample)
+
+
+def _c05_replay(case):
+    from . import model_diagram as MD
+
+    return MD.replay_case(case)
+
+
+PROFILES["C05"] = Profile(
+    "C05", _c05_run_seed, _c05_replay, quick_runs=6000, quick_budget=120, thorough_budget=600,
+    rule=("one evaluation = one seeded run: 6-14 node tensors (rank 1-4, axis sizes 2-4, every index-type pattern, "
+          "integer and complex-integer entries, epsilon/delta nodes, second node objects sharing an array) and a "
+          "model-guided program of 6-32 builder/evaluation/cache steps (new with constructor edges, add_node, add_edge "
+          "incl. repeated edges, self-edges and illegal edges, copy followed by edits of copy and original, calculate "
+          "at any time, results fed back as nodes, Tensor.__mul__/__pow__/tensor_product, epsilon/delta construction, "
+          "cache eviction) by 1-4 clients; executed fault-free in SEQ with the reference model in lock-step, then "
+          "again under {async exceptions + mid-step cache eviction, line-granular pre-emption, both}. Plus an "
+          "exhaustive entry-by-entry table comparison (coverage.tables). distinct = distinct (program shape, "
+          "outcomes, schedule) signature; non-trivial = at least two successful builder steps"),
+    assumptions=[
+        "node identity = Python object identity (forced by tests/test_base.py::test_add_edge)",
+        "'first' unused index = lowest axis number",
+        "nodes with free (collection) indices are excluded: the statement does not define them",
+        "a diagram on which add_edge/add_node raised or was interrupted is retired (builder failure atomicity is not "
+        "claimed by any property)",
+        "all-int8 (epsilon-only) diagrams whose L1 bound exceeds 127 are not compared (dtype overflow is an input "
+        "matter)",
+        "sampling of programs x schedules x faults; only the epsilon/delta tables are exhaustive",
+    ],
+    evidence_extra=c05_evidence_extra, pre=c05_pre,
+    step_slots=lambda s: [s[k] for k in ("t", "s", "a", "b") if k in s and s["op"] not in ("eps", "delta")]
+    + [x for e in s.get("edges", []) for x in e],
+)
+
+
+# ---------------------------------------------------------------------------------------------------------------------
 # drivers
 
 
@@ -150,7 +225,7 @@ def do_check(prof: Profile, args) -> int:
             def run_case(c, _replay=prof.replay_case):
                 return _replay(c).get("violation")
 
-            mcase, mv, used = minimise.minimise(case, v, run_case, budget=300)
+            mcase, mv, used = minimise.minimise(case, v, run_case, budget=300, step_slots=prof.step_slots)
             path = batch.write_replay(prof.prop, r["seed"], mcase, mv,
                                       {"minimisation_executions": used, "original_steps": len(case.get("steps", []))})
             ok, out = batch.fresh_replay(prof.prop, path)
